@@ -157,11 +157,12 @@ pub fn open_flagsets(thorough: bool, nonblock_only: bool) -> Vec<i64> {
         O_WRONLY | O_NONBLOCK,
         O_RDONLY | O_NOFOLLOW | O_NONBLOCK,
         O_PATH | O_DIRECTORY,
+        O_PATH,
     ];
     if !nonblock_only { v.push(O_RDONLY); v.push(O_RDWR); }
     if thorough {
         v.extend_from_slice(&[
-            O_PATH, O_PATH | O_DIRECTORY | O_NOFOLLOW, O_RDWR | O_NONBLOCK, O_WRONLY | O_APPEND | O_NONBLOCK,
+            O_PATH | O_DIRECTORY | O_NOFOLLOW, O_RDWR | O_NONBLOCK, O_RDONLY | O_DIRECT | O_NONBLOCK, O_WRONLY | O_APPEND | O_NONBLOCK,
             O_RDONLY | O_NOATIME | O_NONBLOCK, O_RDWR | O_SYNC | O_NONBLOCK, O_RDONLY | O_DIRECTORY | O_NOFOLLOW | O_NONBLOCK,
             O_WRONLY | O_DSYNC | O_NONBLOCK, O_RDONLY | O_NONBLOCK | O_NOCTTY,
         ]);
